@@ -18,6 +18,7 @@ def main(jobs, only=None):
     for i, ch in enumerate(chunks):
         if not ch:
             continue
+        Path(f"/tmp/seedall_{i}.json").unlink(missing_ok=True)          # no stale entries from an earlier run
         out = open(f"/tmp/seedall_{i}.log", "w")
         env = dict(os.environ, SEEDTEST_RESULTS=f"/tmp/seedall_{i}.json")
         procs.append((subprocess.Popen(["/venv/bin/python", "-m", "harness.seedtest", *ch, "--save"], cwd=str(VERIF), stdout=out,
